@@ -24,7 +24,8 @@ def tables():
 
 
 # ----------------------------------------------------------------------------- generator
-PLAIN_DIRS = ["src", "sub", "gen", "generic", "gen_utils", "lib", "pkg", ".hidden", "docs", "a.b", "deep", "tests", "buildx", "xbuild"]
+PLAIN_DIRS = ["src", "sub", "gen", "generic", "gen_utils", "lib", "pkg", ".hidden", "docs", "a.b", "deep", "checks", "buildx", "xbuild",
+              "api_generated", "db_generated", "old.bak"]
 PLAIN_FILES = ["a.py", "b.ts", "c.rs", "generic.py", "gen", "notes.txt", "Makefile", ".env", "gen_utils.py", "x.tar.gz", "mod.pyx",
                "data.json", "lib.rs", "main.js", "README.md"]
 
@@ -59,12 +60,14 @@ def gen_tree(rng, excl_dirs, excl_exts, depth=0):
 
 
 def gen_forms(rng, tree):
-    names = ["gen", "sub", "lib", "deep", "docs", "tests", ".hidden", "generic", "a.b", "src"]
+    names = ["gen", "sub", "lib", "deep", "docs", "checks", ".hidden", "generic", "a.b", "src"]
     forms = []
     for _ in range(rng.choice([0, 1, 1, 2, 3])):
-        k = rng.choice(["dir", "dir", "anydir", "anydir", "ext", "ext", "exact"])
+        k = rng.choice(["dir", "dir", "anydir", "anydir", "ext", "ext", "exact", "globdir", "globdir"])
         if k in ("dir", "anydir"):
             forms.append({"form": k, "n": rng.choice(names)})
+        elif k == "globdir":
+            forms.append({"form": "globdir", "any": rng.random() < 0.5, "n": rng.choice(["*_generated", "*.bak", "ge?", "*b", "gen*", "*"])})
         elif k == "ext":
             forms.append({"form": "ext", "n": rng.choice([".py", ".ts", ".txt", ".gz", ".json", ".rs", ".md"])})
         else:
@@ -87,7 +90,7 @@ def all_files(tree, pre=()):
 def write_tree(root: Path, tree):
     for n in tree:
         if "f" in n:
-            (root / n["f"]).write_text("x = 1\n")
+            (root / n["f"]).write_text("def f():\n    return 4242\n")
         else:
             (root / n["d"]).mkdir()
             write_tree(root / n["d"], n["k"])
@@ -126,6 +129,16 @@ def impl_case(args) -> dict:
             out["linted"] = got
             out["dups"] = len(vs) - len(got)
             out["exit"] = code
+        if case.get("parallel"):
+            # second probe through a command that has --parallel: magic-numbers sees the .py files of the linted set
+            a2 = (["--project-root", str(proj), "magic-numbers", "--format", "json", "--parallel"]
+                  + ([] if case["recursive"] else ["--no-recursive"]) + [target])
+            code2, stdout2 = core.run_cli(a2, cwd=cwd)
+            vs2 = core.violations_json(stdout2)
+            if vs2 is None:
+                out["errors"].append(f"magic-numbers --parallel: exit {code2}: {stdout2[:300]}")
+            else:
+                out["linted_py_parallel"] = sorted({os.path.relpath(os.path.join(cwd, v["file_path"]), target_abs) for v in vs2})
         # explicitly named files
         exp = []
         if case["explicit"]:
@@ -164,7 +177,7 @@ def gen_case(rng, excl_dirs, excl_exts):
         sub = next(n["k"] for n in sub if n.get("d") == r)
     files = all_files(sub)
     explicit = rng.sample(files, min(len(files), rng.choice([0, 2, 3])))
-    return {"tree": tree, "rel": rel, "carrier": carrier, "recursive": rng.random() < 0.75,
+    return {"tree": tree, "rel": rel, "carrier": carrier, "recursive": rng.random() < 0.7, "parallel": rng.random() < 0.3,
             "spelling": rng.choice(["dot", "rel", "abs"]), "forms": gen_forms(rng, sub), "explicit": explicit}
 
 
@@ -195,8 +208,8 @@ def evaluate(cases, res: core.Result, procs=16):
     leans = drv.batch(reqs)
     drv.close()
     try:
-        with mp.Pool(procs) as pool:
-            impls = pool.map(impl_case, [(i, c, l["patterns"], str(root)) for i, (c, l) in enumerate(zip(cases, leans))], chunksize=4)
+        if True:
+            impls = core.pmap(impl_case, [(i, c, l["patterns"], str(root)) for i, (c, l) in enumerate(zip(cases, leans))], procs=procs, chunksize=4)
     finally:
         shutil.rmtree(root, ignore_errors=True)
     for c, l, im in zip(cases, leans, impls):
@@ -204,6 +217,7 @@ def evaluate(cases, res: core.Result, procs=16):
         res.bump("spelling", c["spelling"])
         res.bump("carrier", c["carrier"])
         res.bump("recursive", c["recursive"])
+        res.bump("parallel", bool(c.get("parallel")))
         res.bump("n_files", min(len(l["universe"]), 30) // 5 * 5)
         for f in c["forms"]:
             res.bump("form", f["form"])
@@ -219,6 +233,13 @@ def evaluate(cases, res: core.Result, procs=16):
                 problems.append(f"linted set: implementation-only {sorted(set(im['linted']) - set(model))}, model-only {sorted(set(model) - set(im['linted']))}")
                 if im["linted"] != spec:
                     fails = True
+            if "linted_py_parallel" in im:
+                SRC = (".py", ".js", ".ts", ".rs")
+                want = [p for p in model if p.endswith(SRC)]
+                if im["linted_py_parallel"] != want:
+                    problems.append(f"--parallel run (magic-numbers probe) linted {im['linted_py_parallel']}, model {want}")
+                    if im["linted_py_parallel"] != [p for p in spec if p.endswith(SRC)]:
+                        fails = True
             if im.get("dups"):
                 problems.append(f"{im['dups']} file(s) reported more than once")
                 fails = True
